@@ -29,6 +29,21 @@ instance : Monad Res where
 @[simp] theorem bind_exc {α β} (f : α → Res β) : ((exc : Res α) >>= f) = exc := rfl
 @[simp] theorem pure_eq {α} (a : α) : (pure a : Res α) = val a := rfl
 @[simp] theorem map_val {α β} (f : α → β) (a : α) : (f <$> (val a : Res α)) = val (f a) := rfl
+/-- `[f(x) for x in l]` with the first exception propagating -/
+def mapM {α β} (f : α → Res β) : List α → Res (List β)
+  | [] => val []
+  | a :: as =>
+    match f a with
+    | val b => (match mapM f as with
+      | val bs => val (b :: bs)
+      | rte => rte
+      | exc => exc)
+    | rte => rte
+    | exc => exc
+instance : LawfulMonad Res := LawfulMonad.mk'
+  (id_map := fun x => by cases x <;> rfl)
+  (pure_bind := fun _ _ => rfl)
+  (bind_assoc := fun x _ _ => by cases x <;> rfl)
 def isVal {α} : Res α → Bool
   | val _ => true
   | _ => false
